@@ -846,6 +846,11 @@ func (env *SpecEnv) call(n *ast.CallExpr) Value {
 			t.Lo, t.Hi = sig.lo, sig.hi
 			return t
 		}
+		if fn.Name == "aff" {
+			if k := env.e.affConst(ts[0], ts[1]); k != nil {
+				return k
+			}
+		}
 		return liftApp(fn.Name, sig.res, ts...)
 	}
 	env.fail("unknown spec function %s", fn.Name)
@@ -890,6 +895,18 @@ func liftApp(name string, s Sort, args ...*Term) *Term {
 		}
 	}
 	return mkApp(name, s, args...)
+}
+
+// absOfCoords: abstract point of projective (or affine, z = 1) coordinates; verified constant table
+// entries become multiples of G.
+func (env *SpecEnv) absOfCoords(x, y, z *Term) *Term {
+	if z.IsConst() && z.Val.Cmp(big1) == 0 {
+		if k := env.e.affConst(x, y); k != nil {
+			return k
+		}
+		return env.state().sub(liftApp("aff", SPt, x, y))
+	}
+	return env.state().sub(liftApp("pt", SPt, x, y, z))
 }
 
 func (env *SpecEnv) pointCoords(x ast.Expr) (*Term, *Term, *Term) {
@@ -1033,7 +1050,7 @@ func init() {
 			x, y, z := env.pointCoords(ex)
 			sub := &SpecEnv{e: env.e, st: env.st, old: env.old, vars: map[string]Value{"X": x, "Y": y, "Z": z}, fnName: "tblok", inOld: env.inOld}
 			cs = append(cs, sub.boolTerm(d.Body))
-			p := env.state().sub(liftApp("pt", SPt, x, y, z))
+			p := env.absOfCoords(x, y, z)
 			if j == 0 {
 				t0 = p
 			} else {
@@ -1067,7 +1084,7 @@ func init() {
 	// abs(p): abstract point represented by a *Point (or affinePoint with z = 1)
 	specFuncs["abs"] = func(env *SpecEnv, n *ast.CallExpr) Value {
 		x, y, z := env.pointCoords(n.Args[0])
-		return env.state().sub(liftApp("pt", SPt, x, y, z))
+		return env.absOfCoords(x, y, z)
 	}
 	// onc(p): the coordinates of p satisfy the projective curve equation
 	specFuncs["onc"] = func(env *SpecEnv, n *ast.CallExpr) Value {
